@@ -5,7 +5,7 @@ import subprocess
 import sys
 
 VERIF = os.path.dirname(os.path.dirname(os.path.abspath(__file__)))
-ALL = ["C01", "C05", "C06", "C07", "C09", "C11", "C12", "C17", "C18", "C20"]
+ALL = ["C01", "C05", "C06", "C07", "C09", "C11", "C12", "C17", "C18", "C19", "C20"]
 
 
 def digests(pids, n, seed, tier="quick"):
